@@ -174,6 +174,9 @@ RULES = [
     ("C19-R1", "archive member loop: range, identity, guards, order, exits", r1),
     ("C19-R2", "FileInfo field table", r2),
     ("C19-R3", "availability table vs column arms; member labels and attribute sources", r3),
+    ("C06-R2", "LIMIT early exits of the member loop apply to unbuffered output only [shared with C06]", lambda ctx: __import__("c06").r2(ctx)),
+    ("C04-R1", "stored unix modes of members: permission and type predicates [shared with C04]", lambda ctx: __import__("c04").r1(ctx)),
+    ("C04-R2", "mode string of members [shared with C04]", lambda ctx: __import__("c04").r2(ctx)),
 ]
 
 EXPLANATION = (
